@@ -181,27 +181,13 @@ func genCrashShape(repo string) (string, error) {
 	if len(resetOrder) != 2 {
 		return tb("Reset does not delete the share and the group file exactly once each: %v", resetOrder)
 	}
-	// Save in place: creates/truncates filePath itself and encodes into that handle; no rename
-	save := sfFindFunc(ks, "", "Save")
-	if save == nil {
-		return tb("key.Save not found")
+	// key.Save: in place, or write aside + Sync + Close + rename (shape read by sfSaveShape)
+	inPlace, atomicRename, _, err := sfSaveShape(ks)
+	if err != nil {
+		return "", fmt.Errorf("T-break: crashshape: %w", err)
 	}
-	inPlace, creates, encodes := true, 0, 0
-	for _, c := range sfCalls(save) {
-		switch ch := sfChain(c.Fun); {
-		case ch == "os.Create" || ch == "fs.CreateSecureFile":
-			if len(c.Args) != 1 || sfChain(c.Args[0]) != "filePath" {
-				inPlace = false
-			}
-			creates++
-		case strings.HasSuffix(ch, ".Encode"):
-			encodes++
-		case ch == "os.Rename" || strings.Contains(ch, "CreateTemp") || strings.Contains(ch, "Sync"):
-			inPlace = false
-		}
-	}
-	if creates != 2 || encodes != 1 {
-		return tb("key.Save: unexpected shape (creates=%d encodes=%d)", creates, encodes)
+	if !inPlace && !atomicRename {
+		return tb("key.Save renames a temporary file into place but not after encode, Sync and Close in this order")
 	}
 	// executeAndFinishDKG: SaveFinished before the send on completedDKGs
 	ex, err := parseFile(repo, "internal/dkg/execution.go")
@@ -306,7 +292,7 @@ func genCrashShape(repo string) (string, error) {
 	var sb strings.Builder
 	sb.WriteString("(* GENERATED by zzv extract (harness/extract/crashshape.go) from internal/dkg/store.go, execution.go,\n   internal/core/drand_beacon.go, common/key/store.go, internal/chain/boltdb/{store,trimmed}.go; do not edit. *)\n")
 	sb.WriteString("From Coq Require Import ZArith List.\nFrom DV Require Import Model.Crash.\nImport ListNotations.\nOpen Scope Z_scope.\n")
-	fmt.Fprintf(&sb, "Definition crash_shape : shape :=\n  mkShape %s (* SaveCurrent *)\n    %s (* SaveFinished *)\n    [%s] (* storeDKGOutput *)\n    [%s] (* Reset *)\n    %s (* SaveFinished before hand-over *)\n    %s (* boltdb Put *)\n    %s (* Save in place *)\n    %s (* callbackStore.Put: write (error returns) before dispatch *).\n",
+	fmt.Fprintf(&sb, "Definition crash_shape : shape :=\n  mkShape %s (* SaveCurrent *)\n    %s (* SaveFinished *)\n    [%s] (* storeDKGOutput *)\n    [%s] (* Reset *)\n    %s (* SaveFinished before hand-over *)\n    %s (* boltdb Put *)\n    %s (* Save in place (false: complete temporary file renamed over the target) *)\n    %s (* callbackStore.Put: write (error returns) before dispatch *).\n",
 		coqTxs(cur), coqTxs(fin), strings.Join(storeOrder, "; "), strings.Join(resetOrder, "; "), b(posSave < posSend), chainShapes[0], b(inPlace), b(cbWriteFirst))
 	return sb.String(), nil
 }
